@@ -74,7 +74,11 @@ func (c *Cluster) genJoin(g *genState) *Step {
 	if c.cfg.FastSyncLate && r.Bool(0.7) {
 		st.F = 1
 	}
-	if r.Bool(0.2) {
+	pb := 0.2
+	if c.cfg.PJoinerBadger > 0 {
+		pb = c.cfg.PJoinerBadger
+	}
+	if r.Bool(pb) {
 		st.N = 1
 	}
 	return st
